@@ -294,8 +294,8 @@ def run(chk):
     rnd = random.Random(chk.seed)
     t = "full" if thorough else "quick"
     res = sl.parallel({
-        "mc": lambda: tlc.run("MC_FreqShift", "MC_FreqShift_%s.cfg" % t, workers=8, timeout=3000),
-        "neg": lambda: tlc.run("MC_FreqShift", "Neg_FreqShift_pinned.cfg", workers=1, timeout=900),
+        "mc": lambda: tlc.run("MC_FreqShift", "MC_FreqShift_%s.cfg" % t, workers=8, timeout=3000, heap="3g"),
+        "neg": lambda: tlc.run("MC_FreqShift", "Neg_FreqShift_pinned.cfg", workers=1, timeout=900, heap="1g"),
         "cases": lambda: sl.gen("Gen_FreqShift", "Gen_FreqShift_%s.cfg" % t, workers=2),
         "table": lambda: sl.gen("Gen_Delay", "Gen_Delay_freq_%s.cfg" % t, workers=5, timeout=3000),
     })
